@@ -18,6 +18,9 @@ def step (st : State) (line : String) : State × String :=
   | "DEF" :: args => handleDef st args
   | "ENC" :: args => (st, handleEnc st args impl)
   | "DEC" :: args => (st, handleDec st args impl)
+  | "BPE" :: args => (st, handlePiece st args impl)
+  | "UNI" :: args => (st, handlePiece st args impl)
+  | "WP" :: args => (st, handlePiece st args impl)
   | "SPLIT" :: args => (st, handleSplit args impl)
   | "NORM" :: args => (st, handleNorm args impl)
   | _ => (st, "BAD-OP")
